@@ -10,7 +10,7 @@ import (
 
 // Run is the C09 check.
 func Run(c *core.Ctx) int {
-	n := c.N(40, 1000)
+	n := c.N(40, 500)
 	var mu sync.Mutex
 	programs, lines := 0, 0
 	distinct := map[string]bool{}
